@@ -5,7 +5,7 @@
 // resolveWithCachedNameservers, driven one step at a time through
 // resolver.VerifC08Descent (see harness/export/middleware/resolver/c08_descent_verif.go).
 //
-//	ev new | ev tick <s> | ev start <q> | ev sub <q> | ev chase <q> | ev ref <zone> <ttl,ttl…>
+//	ev new | ev tick <s> | ev start <q> | ev sub <q> | ev nsl <q> | ev chase <q> | ev ref <zone> <ttl,ttl…>
 //	ev fin <t|f> | ev purge <zone> | ev ans
 //
 // Names are dotted numeric labels, leaf first (`7.3.1` = n7.n3.n1.); times are printed
@@ -96,7 +96,7 @@ func evRun(f []string) string {
 		evD.Shift(d)
 		evShift += d
 		return "ok"
-	case "start", "sub", "chase":
+	case "start", "sub", "nsl", "chase":
 		return evState(evD.Start(f[1], evName(f[2])))
 	case "ref":
 		var ttls []uint32
@@ -180,7 +180,7 @@ func execEv(f []string) vlib.Res {
 			}
 		}
 	}
-	if (f[1] == "start" || f[1] == "sub" || f[1] == "chase") && strings.HasPrefix(out, "z=") && !strings.HasPrefix(out, "z=. ") {
+	if (f[1] == "start" || f[1] == "sub" || f[1] == "nsl" || f[1] == "chase") && strings.HasPrefix(out, "z=") && !strings.HasPrefix(out, "z=. ") {
 		// seeded from a cached delegation: its deadline bounds the descent and is reported at once
 		if strings.Contains(out, "cut=z") || strings.Contains(out, "meta=z") {
 			or = "FAIL sig=descent/seed-not-bounded-by-cached-delegation"
@@ -260,7 +260,7 @@ func genEvCase(r *vlib.R, emit func(string)) int {
 		e("ev start " + show(q))
 		descend(q)
 		if r.Chance(1, 2) {
-			kind := vlib.Pick(r, []string{"sub", "chase"})
+			kind := vlib.Pick(r, []string{"sub", "nsl", "chase"})
 			q2 := q
 			if r.Chance(1, 2) {
 				q2 = mk(3)
